@@ -731,6 +731,99 @@ fn oracle_compact_ab(r: &Req, out: &str) -> Result<(), String> {
     Ok(())
 }
 
+// ------------------------------------------------------------------ channel: compact.augment
+
+/// `decomp_augment_compact` (via `decomp_augment` with `chordal_decomposition_compact = true`)
+fn run_compact_augment(r: &Req) -> String {
+    let mut info = parse_info(r);
+    let (p, q, a, b) = (r.csc("P"), r.fs("q"), r.csc("A"), r.fs("b"));
+    let st = settings(true, "none", false);
+    let (pn, qn, an, bn, cones) = info.decomp_augment(&p, &q, &a, &b, &st);
+    format!("{} q={} {} b={} {} {}", fmt_csc_p("P", &pn), ffs(&qn), fmt_csc_p("A", &an), ffs(&bn), fmt_cones("", &cones), fmt_cone_maps(&info.cone_maps().unwrap()))
+}
+/// property: the overlap variables are free of cost (`P_new = blockdiag(P, 0)`, `q_new = (q, 0)`,
+/// so the objective of `(x, w)` is that of `x`), their number is `A_new.n - A.n`, and
+/// `A_new`, `b_new`, cones are those of `find_compact_A_b_and_cones` (judged by `compact.Ab`)
+fn oracle_compact_augment(r: &Req, out: &str) -> Result<(), String> {
+    let o = Req::parse(&format!("x {}", out)).ok_or("unparsable")?;
+    if !o.has("Acolptr") || !o.has("Pcolptr") {
+        return Err(format!("decomp_augment_compact failed: {}", out));
+    }
+    let (p, q, a, b) = (r.csc("P"), r.fs("q"), r.csc("A"), r.fs("b"));
+    let (pn, qn, an, bn) = (o.csc("P"), o.fs("q"), o.csc("A"), o.fs("b"));
+    if an.n < a.n {
+        return Err("A_new has fewer columns than A".into());
+    }
+    let nadd = an.n - a.n;
+    // number of overlap variables from the independent description of the blocks
+    let mut want_ov = 0;
+    for blk in blocks_of(&parse_cones(r, ""), &parse_patterns(r)) {
+        if let Block::Cliques(_, _, seps, _) = blk {
+            for sp in seps {
+                want_ov += sp.len() * (sp.len() + 1) / 2;
+            }
+        }
+    }
+    if nadd != want_ov {
+        return Err(format!("{} overlap variables, expected {}", nadd, want_ov));
+    }
+    if pn.m != p.m + nadd || pn.n != p.n + nadd {
+        return Err(format!("P_new is {}x{}, expected {}x{}", pn.m, pn.n, p.m + nadd, p.n + nadd));
+    }
+    if pn.colptr.len() != pn.n + 1 || pn.rowval.iter().any(|&i| i >= pn.m) {
+        return Err("P_new is not a well-formed CSC matrix".into());
+    }
+    let dn = gen::to_dense(&pn);
+    let dp = gen::to_dense(&p);
+    for i in 0..pn.m {
+        for j in 0..pn.n {
+            let want = if i < p.m && j < p.n { dp[i][j] } else { 0.0 };
+            if dn[i][j].to_bits() != want.to_bits() && !(dn[i][j] == 0.0 && want == 0.0) {
+                return Err(format!("P_new[{},{}] = {} but blockdiag(P, 0) has {}", i, j, dn[i][j], want));
+            }
+        }
+    }
+    if qn.len() != q.len() + nadd {
+        return Err(format!("q_new has length {}, expected {}", qn.len(), q.len() + nadd));
+    }
+    for j in 0..qn.len() {
+        let want = if j < q.len() { q[j] } else { 0.0 };
+        if qn[j].to_bits() != want.to_bits() {
+            return Err(format!("q_new[{}] = {} but (q, 0) has {}", j, qn[j], want));
+        }
+    }
+    // the objective of (x, w) equals the objective of x for a test point
+    let x: Vec<f64> = (0..qn.len()).map(|j| 1.0 + (j as f64) * 0.5).collect();
+    let lin_new: f64 = (0..qn.len()).map(|j| qn[j] * x[j]).sum();
+    let lin_old: f64 = (0..q.len()).map(|j| q[j] * x[j]).sum();
+    if lin_new.to_bits() != lin_old.to_bits() && !(lin_new == lin_old) {
+        return Err(format!("linear objective changed: {} vs {}", lin_new, lin_old));
+    }
+    let mut quad_new = 0.0;
+    let mut quad_old = 0.0;
+    for i in 0..pn.m {
+        for j in 0..pn.n {
+            quad_new += x[i.min(x.len() - 1)] * dn[i][j] * x[j];
+            if i < p.m && j < p.n {
+                quad_old += x[i.min(x.len() - 1)] * dp[i][j] * x[j];
+            }
+        }
+    }
+    if quad_new != quad_old {
+        return Err(format!("quadratic objective changed: {} vs {}", quad_new, quad_old));
+    }
+    // A_new, b_new are the outputs of find_compact_A_b_and_cones
+    let mut info = parse_info(r);
+    let (an2, bn2, _) = info.find_compact_A_b_and_cones(&a, &b);
+    if an2.m != an.m || an2.n != an.n || an2.colptr != an.colptr || an2.rowval != an.rowval
+        || an2.nzval.iter().zip(&an.nzval).any(|(u, v)| u.to_bits() != v.to_bits())
+        || bn2.len() != bn.len() || bn2.iter().zip(&bn).any(|(u, v)| u.to_bits() != v.to_bits())
+    {
+        return Err("A_new / b_new differ from find_compact_A_b_and_cones".into());
+    }
+    Ok(())
+}
+
 // ------------------------------------------------------------------ channel: compact.reverse
 
 fn run_compact_reverse(r: &Req) -> String {
@@ -1127,6 +1220,8 @@ fn channels() -> Vec<Channel> {
             rust_fn: "ChordalInfo::decomp_reverse_standard", lean: "Chordal.decompReverseStandard / C18.reverse_standard" },
         Channel { name: "compact.Ab", tol: Tol::Exact, run: run_compact_ab, oracle: Some(oracle_compact_ab), modelled: true,
             rust_fn: "ChordalInfo::find_compact_A_b_and_cones", lean: "Chordal.findCompactAbAndCones" },
+        Channel { name: "compact.augment", tol: Tol::Exact, run: run_compact_augment, oracle: Some(oracle_compact_augment), modelled: true,
+            rust_fn: "ChordalInfo::decomp_augment_compact", lean: "Chordal.decompAugmentCompact / C18.compact_objective" },
         Channel { name: "compact.reverse", tol: Tol::Exact, run: run_compact_reverse, oracle: Some(oracle_compact_reverse), modelled: true,
             rust_fn: "ChordalInfo::decomp_reverse_compact", lean: "Chordal.decompReverseCompact" },
         Channel { name: "psd_complete", tol: Tol::Exact, run: run_psd_complete, oracle: Some(oracle_psd_complete), modelled: false,
@@ -1391,6 +1486,22 @@ fn generate(s: &mut Session) {
         }
         let cline = format!("{} {} b={}", info_line("compact.Ab", &pr, &pats), fmt_csc_p("A", &pr.a), ffs(&pr.b));
         let cout = s.submit(cline);
+        {
+            // decomp_augment_compact with a non-trivial upper-triangular P
+            let n = pr.n;
+            let (mut pi, mut pj, mut pv) = (vec![], vec![], vec![]);
+            for j in 0..n {
+                for i in 0..=j {
+                    if s.rng.bool(0.4) {
+                        pi.push(i);
+                        pj.push(j);
+                        pv.push(s.rng.smallint(3));
+                    }
+                }
+            }
+            let pm = CscMatrix::new_from_triplets(n, n, pi, pj, pv);
+            s.submit(format!("{} {} q={} {} b={}", info_line("compact.augment", &pr, &pats), fmt_csc_p("P", &pm), ffs(&pr.q), fmt_csc_p("A", &pr.a), ffs(&pr.b)));
+        }
         if let Some(o) = Req::parse(&format!("x {}", cout)) {
             if o.has("Am") {
                 let mnew = o.u("Am");
